@@ -10,6 +10,17 @@
 From TauModel Require Import Base Num Oracles Syntax Value Yaml Pratt ParseMap Solver Rule Keys Known Spec.
 From TauProofs Require C02_full.
 
+(* since fix D27 the scalar entry theorem needs only the D30 exclusion *)
+Theorem entry_refines_d27_fixed : forall o ic k v e,
+  scalar_yaml v = true -> bigint_str_entry o (YStr k) v = false ->
+  parse_entry o ic (YStr k) v None [] = Ok e ->
+  exists m f, read_key o k = Some (m, f) /\
+              match m with KAll | KOf _ => False | _ => True end /\
+              forall d : doc, solve_body o e (pure_doc d) = Ok (sem_entry_scalar o ic m f v d).
+Proof. exact C02_full.entry_refines_d27_fixed. Qed.
+Check entry_refines_d27_fixed.
+Print Assumptions entry_refines_d27_fixed.
+
 (* mappings whose values are scalars, non-empty lists of scalars, or such mappings *)
 Fixpoint list_mapping (fuel : nat) (y : yaml) : bool :=
   match fuel with
